@@ -52,10 +52,10 @@ CONFIGS = [
 ]
 
 
-def consts(c, maxprompt, maxreqs, maxsteps, keeps="{0, 1, 2, 9}", predicts="{2, 5}", asis=False):
+def consts(c, maxprompt, maxreqs, maxsteps, keeps="{0, 1, 2, 9}", predicts="{2, 5}", asis=False, stops=False):
     return {"NumCtx": c["numctx"], "Parallel": c["parallel"], "BatchSize": c["batch"], "MultiUser": vf.tla_bool(c["multi"]),
             "CanShift": vf.tla_bool(c["shift"]), "MaxPrompt": maxprompt, "MaxReqs": maxreqs, "MaxSteps": maxsteps,
-            "Keeps": keeps, "Predicts": predicts, "CodeAsIs": vf.tla_bool(asis)}
+            "Keeps": keeps, "Predicts": predicts, "CodeAsIs": vf.tla_bool(asis), "UseStops": vf.tla_bool(stops)}
 
 
 def run(tier="quick", seed=1, replay=None):
@@ -77,6 +77,12 @@ def run(tier="quick", seed=1, replay=None):
                                    consts(c, 3, 2, 8 if quick else 10, keeps="{0, 1}", predicts="{3}"), MC_BODY)
                 r = vf.tlc("Runner", cfg, wd, timeout=2400)
                 vf.tlc_must_pass(r, f"Runner design ({c['name']})")
+                cfg = vf.write_cfg(wd, f"MCS_Runner_{c['name']}.cfg",
+                                   consts(c, 3, 2, 7 if quick else 8, keeps="{0}", predicts="{5}", stops=True), MC_BODY)
+                r2 = vf.tlc("Runner", cfg, wd, timeout=2400)
+                vf.tlc_must_pass(r2, f"Runner design with stop sequences ({c['name']})")
+                cov["states"] += r2["distinct"]
+                cov["transitions"] += r2["generated"]
                 cov["states"] += r["distinct"]
                 cov["transitions"] += r["generated"]
                 cov["configs"].append(dict(config=c["name"], distinct=r["distinct"], generated=r["generated"]))
@@ -85,6 +91,10 @@ def run(tier="quick", seed=1, replay=None):
                 steps = 12
                 cfg = vf.write_cfg(wd, f"Gen_Runner_{c['name']}.cfg", consts(c, c["numctx"] + 2, 4, steps), GEN_BODY)
                 hs, _ = vf.gen_simulate("Runner", cfg, wd, num=60 if quick else 1200, depth=steps + 2, seed=seed * 50 + ci)
+                # requests with stop sequences: a stop trims the slot's record but not the cache, the next request must not see it
+                cfg = vf.write_cfg(wd, f"GenS_Runner_{c['name']}.cfg", consts(c, c["numctx"] + 2, 4, steps, keeps="{0, 9}", predicts="{6}", stops=True), GEN_BODY)
+                hs2, _ = vf.gen_simulate("Runner", cfg, wd, num=40 if quick else 900, depth=steps + 2, seed=seed * 50 + ci + 7)
+                hs = hs + hs2
                 for h in vf.dedupe(hs):
                     tid += 1
                     behaviours.append(dict(t=tid, cfg=c, hist=h))
